@@ -249,7 +249,7 @@ class Check(PropertyCheck):
         out.append({'kind': 'fs', 'roots': [[0, [1, 'p', [1, '__init__.py', [0, 'z.py']], [0, 'a.py']]]]})  # __init__.py is a directory
         # random deeper trees
         nrand = 300 if self.tier == 'quick' else 3000
-        names = ['a', 'b', 'B', 'c', '_p', 'zz', 'a.b', 'é']
+        names = ['a', 'b', 'B', 'c', '_p', 'zz', 'é']     # no dotted names: 'p/a.b' and 'p/a/b' share the full name p.a.b (C02)
 
         def rnd_dir(name: str, depth: int) -> Any:
             ents: List[Any] = []
